@@ -21,7 +21,6 @@ namespace CharonV.QbftWire
 open CharonV.Generated
 
 abbrev Key    := Nat   -- a secp256k1 public key
-abbrev Digest := Nat   -- 32-byte ssz root of the deterministic marshalling of a QBFTMsg without signature
 abbrev SigB   := Nat   -- signature bytes
 abbrev Val    := Nat   -- one `anypb.Any` of `QBFTConsensusMsg.values`
 abbrev Inner  := Nat   -- the proto message inside an `Any`
@@ -81,8 +80,10 @@ structure Wire where
   values : List Val
   deriving DecidableEq, Repr
 
-/-- Symbolic cryptography / serialisation. -/
+/-- Symbolic cryptography / serialisation. `Digest` is the type of signed digests (the 32-byte ssz
+root of the deterministic marshalling of a `QBFTMsg` without signature); it is left abstract. -/
 structure Crypto where
+  Digest : Type
   digest : Fields → Digest
   recover : Digest → SigB → Option Key      -- `none`: `k1util.Recover` returned an error
   unmarshalAny : Val → Option Inner         -- `none`: `UnmarshalNew` failed
